@@ -55,6 +55,8 @@ ACES_IOS = [
     "permit tcp any any log syn", "permit tcp any any ack log rst",
     # the other log keyword, alone, after and before a flag
     "permit tcp any any log-input", "permit tcp any any syn log-input", "permit tcp any any log-input ack",
+    # neq with three operands that leave gaps of one port between them, and the ports in the gaps
+    "permit tcp any any neq 1 3 5", "permit tcp any any eq 2", "permit tcp any any neq 2", "permit tcp any any neq 1 3 4", "permit tcp any any eq 4", "permit tcp any any range 2 4",
     # wildcards with many non-contiguous bits and a lowest mask bit of 0 (256 networks), hosts inside and outside them
     "permit ip 10.0.0.1 0.0.255.0 any", "permit ip host 10.0.5.1 any", "permit ip host 10.0.5.2 any", "permit ip 10.0.0.0 0.0.4.0 any",
     "permit ip 10.0.0.0 128.0.0.255 any", "permit ip 138.0.0.0 0.0.0.255 any", "permit ip 10.0.0.0 0.0.1.0 any", "permit ip 10.0.1.0 0.0.0.0 any",
@@ -63,7 +65,7 @@ ACES_IOS = [
 
 def to_nxos(line):
     rep = {"host 10.0.0.1": "10.0.0.1/32", "10.0.0.0 0.0.0.255": "10.0.0.0/24", "10.0.0.0 0.0.1.255": "10.0.0.0/23",
-           "10.0.1.0 0.0.0.3": "10.0.1.0/30", "10.0.0.0 0.0.0.3": "10.0.0.0/30", "object-group": "addrgroup", "eq 80 443": "eq 443", "permit ipip": "permit 94", "138.0.0.0 0.0.0.255": "138.0.0.0/24",
+           "10.0.1.0 0.0.0.3": "10.0.1.0/30", "10.0.0.0 0.0.0.3": "10.0.0.0/30", "object-group": "addrgroup", "eq 80 443": "eq 443", "neq 1 3 5": "neq 3", "neq 1 3 4": "neq 5", "permit ipip": "permit 94", "138.0.0.0 0.0.0.255": "138.0.0.0/24",
            "10.0.1.0 0.0.0.0": "10.0.1.0/32", "10.1.0.0 0.0.0.255": "10.1.0.0/24",
            "10.2.0.0 0.0.0.255": "10.2.0.0/24", "10.2.0.0 0.0.0.3": "10.2.0.0/30", "host 10.0.5.1": "10.0.5.1/32", "host 10.0.5.2": "10.0.5.2/32"}
     for a, b in rep.items():
